@@ -35,7 +35,8 @@ def _defs():
         ("parse", "val {x:f} of {c:Color}", r"val ([-+]?\d*\.\d+) of (red|green)", [("x", float), ("c", lambda s: COLOR[s])], ["val ", " of ", ""]),
         ("cfparse", "numbers {nums:Number+}", r"numbers (\d+(?:\s*,\s*\d+)*)", [("nums", lambda s: [int(x) for x in s.split(",")])], ["numbers ", ""]),
         ("re", r"re (?P<a>\d+) and (\w+)", r"re (\d+) and (\w+)", [("a", str), (None, str)], ["re ", " and ", ""]),
-        ("re", r"optre(?: (?P<o>x))?", r"optre(?: (x))?", [("o", lambda s: s)], None),
+        # optional groups: an unnamed one after another unnamed one, and a named one (absent groups give None, position kept)
+        ("re", r"optre (\w+)(?: and (\w+))?(?: (?P<o>x))?", r"optre (\w+)(?: and (\w+))?(?: (x))?", [(None, lambda s: s), (None, lambda s: s), ("o", lambda s: s)], None),
         ("re0", r"^anchored (\d+)$", r"anchored (\d+)", [(None, str)], ["anchored ", ""]),
         ("parse", "I have {n:d} apples now", r"I have ([-+]?\d+) apples now", [("n", I)], ["I have ", " apples now"]),
         ("parse", "a plain {thing}", r"a plain (.+?)", [("thing", str)], ["a plain ", ""]),
@@ -47,7 +48,7 @@ def _defs():
 TEXTS = ["a small step", "a plain step", "A plain step", "a plain step ", "xa plain step", "a plain stop", "I have 3 apples", "I have -12 apples", "i have 3 apples",
          "I have x apples", "I have 3 apples now", "I have 3 pears", "a big step", "a  step", "a b c step", "pair x and y", "pair x and", "Pair x and y",
          "val 1.5 of red", "val 1 of red", "val 2.25 of blue", "numbers 1, 2, 3", "numbers 7", "numbers", "numbers a", "re 12 and ab", "re x and ab",
-         "re 12 and ab!", "RE 12 and ab", "optre", "optre x", "optre y", "anchored 5", "anchored 5 x", "x anchored 5", "a plain thing", "a plain ", "", "zzz"]
+         "re 12 and ab!", "RE 12 and ab", "optre", "optre a", "optre a and b", "optre a x", "optre a and b x", "anchored 5", "anchored 5 x", "x anchored 5", "a plain thing", "a plain ", "", "zzz"]
 STYPES = ["given", "when", "step"]
 
 
